@@ -1204,3 +1204,34 @@ func TestC10_borrows(t *testing.T) {
 func init() {
 	replayers["C10.borrows"] = replayers["C09.borrows"]
 }
+
+// TestC08_liquidation asserts the books identity on the lend-liquidation histories (seizure hands collateral to an
+// auction, the auction's close retires the borrow): the property excludes exactly the collateral handed over.
+func TestC08_liquidation(t *testing.T) {
+	r := rec.New("C08", "liquidation")
+	t.Cleanup(r.Flush)
+	rapid.Check(t, func(rt *rapid.T) {
+		r.Guard(func() {
+			r.Eval()
+			cs := &ldCase{Cfg: genLdCfg(rt)}
+			cs.Cfg.Liq = genLdLiq(rt)
+			m := newLdMachine(rt, r, "C08", cs)
+			n := rapid.IntRange(20, 70).Draw(rt, "nops")
+			for i := 0; i < n; i++ {
+				op := m.genOp(rt, i)
+				cs.Ops = append(cs.Ops, op)
+				m.apply(i, op)
+			}
+			m.finish()
+			if m.nSeized > 0 {
+				r.NonTrivialSig(rec.Sig([]interface{}{"liq", cs}), func() interface{} {
+					return map[string]interface{}{"ops": len(cs.Ops), "seized": m.nSeized, "auctions_closed": m.nAucClosed}
+				})
+			}
+		})
+	})
+}
+
+func init() {
+	replayers["C08.liquidation"] = replayers["C08.lend"]
+}
